@@ -55,6 +55,9 @@ def alphabet() -> List[Tuple[str, bytes, int, bool]]:
         ("r-quq-short-w", wire.encode(0, 0x8400, [("Q", TB, 12, 0x8001)], [("PTR", TB, 1, 1, W)]), 5353, True),
         ("r-quq-ptr-w", wire.encode(0, 0x8400, [("Q", TB, 12, 0x8001)], [("PTR", TB, 1, 4500, W),
                                                                         ("SRV", W, 0x8001, 120, 0, 0, 9, "hw.local.")]), 5353, True),
+        # a response with the TC bit set (to be ignored on reception, RFC 6762 s.18.5)
+        ("r-tc-ptr-w", wire.encode(0, 0x8600, (), [("PTR", TB, 1, 4500, W), ("A", "hw.local.", 0x8001, 120, bytes([10, 0, 0, 12]))]),
+         5353, False),
         ("jumbo-r-z", wire.response([("PTR", TB, 1, 4500, Z), ("TXT", Z, 0x8001, 4500, (b"\xff" + b"t" * 255) * 6)]), 5353, False),
     ]
     return a
